@@ -27,7 +27,7 @@ git -C /repo worktree remove --force $wt
 echo "== my check with the patch applied to /repo"
 if ! git -C /repo diff --quiet; then echo "/repo not clean"; exit 1; fi
 git -C /repo apply $dst/patch.diff
-cd /verif && ./bin/zvc check -prop $prop -tier quick > /tmp/seedcheck.out 2>&1 && echo "CHECK EXIT 0 (missed)" || echo "CHECK EXIT 1 (caught)"
+cd /verif && ZVC_NOEVIDENCE=1 ./bin/zvc check -prop $prop -tier quick > /tmp/seedcheck.out 2>&1 && echo "CHECK EXIT 0 (missed)" || echo "CHECK EXIT 1 (caught)"
 grep "^VIOLATION" /tmp/seedcheck.out | cut -c1-250 | head -5
 tail -1 /tmp/seedcheck.out
 git -C /repo checkout -- .
